@@ -1138,6 +1138,8 @@ def run(rep, props, replay=None):
 
 def replay_case(rep, ctx, rp):
     quick = True
+    if "example" in rp and isinstance(rp["example"], dict):      # replay file of an (unlisted) finding
+        rp = rp["example"]
     scs = []
     if rp.get("scenario") == "single":
         for name, short, fn, need in methods_for(rp["kind"], quick):
